@@ -4,4 +4,4 @@ CONSTANTS
   Wide = FALSE
   AlphaCap = 4
   LenCap = 5
-  Budget = 400
+  Budget = 200
